@@ -5,8 +5,7 @@ package sqlx_test
 // C11, remaining entry points of the anchored files (coverage-driven): every Conn
 // constructor (incl. the lazily opened ones and providers that cannot connect), RawDB,
 // destinations that cannot receive a row (documented errors, no panic, no silent
-// success), and the whole workload once more with statement logging disabled (nil guard).
-// This file sorts last on purpose: sqlx.DisableLog is irreversible.
+// success), and slices of the whole workload under every combination of the logging switches.
 
 import (
 	"context"
@@ -378,52 +377,69 @@ func TestVerifC11BadDest(t *testing.T) {
 	m.Note("counted only (no verdict): top-level *time.Time / *sql.NullString / *[]byte / []time.Time destinations and structs with an unexported POINTER field (the mapper treats them as plain structs / allocates through reflection)")
 }
 
-// TestVerifC11ZzNoStmtLog re-runs a slice of the transaction table and of the seeded
-// row-mapping cases with sqlx.DisableLog(): statements then bypass the formatting
-// guard; commit/rollback and mapping must not depend on it. Must stay the LAST test.
-func TestVerifC11ZzNoStmtLog(t *testing.T) {
-	m := vk.New(t, "C11", "with sqlx.DisableLog() (nil statement guard): every 4th case of the transaction table + 500 (thorough 20000) seeded row-mapping cases, same oracles; non-trivial = as in the original tests")
+// TestVerifC11LogSwitches re-runs slices of the transaction table and of the seeded
+// row-mapping cases under every reachable combination of the statement-logging switches
+// (default; DisableStmtLog; DisableLog = nil guard) x slow threshold {default, 0 = every
+// statement is "slow"}: commit/rollback, what the body is told about a failed statement and
+// the mapping must not depend on them. The switches are restored afterwards.
+func TestVerifC11LogSwitches(t *testing.T) {
+	m := vk.New(t, "C11", "for each of {stmt+slow log on, DisableStmtLog, DisableLog} x slow threshold {500ms, 0}: every 6th case of the transaction table (a different residue per configuration) + 250 (thorough 8000) seeded row-mapping cases, same oracles incl. 'a statement whose driver call failed returns an error to the body'; switches restored afterwards; non-trivial = as in the original tests")
 	defer m.Done()
 	c11Setup()
-	sqlx.DisableLog()
+	table := c11TxTable()
 	idx := 0
-	for i, c := range c11TxTable() {
-		if i%4 != 0 {
-			continue
+	cfg := 0
+	for _, sw := range []struct {
+		name       string
+		stmt, slow bool
+	}{{"default", true, true}, {"DisableStmtLog", false, true}, {"DisableLog", false, false}} {
+		for _, thr := range []time.Duration{500 * time.Millisecond, 0} {
+			restore := sqlx.C11SetLogSwitches(sw.stmt, sw.slow, thr)
+			name := fmt.Sprintf("%s/slow>%v", sw.name, thr)
+			for i, c := range table {
+				if i%6 != cfg {
+					continue
+				}
+				idx++
+				if !m.Only(idx) {
+					continue
+				}
+				desc := fmt.Sprintf("case=%d;{\"log\":%q,\"tx\":%s}", idx, name, vk.JSON(c))
+				m.Current(desc)
+				rec := c11NewRec()
+				db, closeDB, err := c11Open(rec)
+				if err != nil {
+					restore()
+					m.Inconclusive("open: %v", err)
+					return
+				}
+				c11ArmFaults(rec, c, map[string]int{})
+				o := c11RunTx(c, sqlx.NewConnFromDB(db), rec)
+				class, _ := c11JudgeTx(m, desc, o)
+				closeDB()
+				m.Count(sw.name+":tx_"+class, 1)
+				m.Count(sw.name+":faults_injected", int64(rec.faultsHit()))
+				m.Case(vk.Digest(desc), len(o.events) > 0)
+			}
+			r := m.Rand("logswitch-orm", cfg)
+			n := vk.N(250, 8000)
+			for j := 1; j <= n; j++ {
+				idx++
+				c := c11GenOrmCase(r)
+				if !m.Only(idx) {
+					continue
+				}
+				st := c11RunOrm(m, idx, &c)
+				if st.class == "inconclusive" {
+					restore()
+					return
+				}
+				m.Count(sw.name+":orm_fields_compared", int64(st.fields))
+				m.Case(vk.Digest(name, vk.JSON(c)), st.fields > 0 || st.class == "row:ErrNotFound")
+			}
+			restore()
+			cfg++
 		}
-		idx++
-		if !m.Only(idx) {
-			continue
-		}
-		desc := fmt.Sprintf("case=%d;%s", idx, vk.JSON(c))
-		m.Current(desc)
-		rec := c11NewRec()
-		db, closeDB, err := c11Open(rec)
-		if err != nil {
-			m.Inconclusive("open: %v", err)
-			return
-		}
-		c11ArmFaults(rec, c, map[string]int{})
-		o := c11RunTx(c, sqlx.NewConnFromDB(db), rec)
-		class, _ := c11JudgeTx(m, desc, o)
-		closeDB()
-		m.Count("tx_"+class, 1)
-		m.Case(vk.Digest(desc), len(o.events) > 0)
 	}
-	r := m.Rand("nolog-orm")
-	n := vk.N(500, 20000)
-	for j := 1; j <= n; j++ {
-		idx++
-		c := c11GenOrmCase(r)
-		if !m.Only(idx) {
-			continue
-		}
-		st := c11RunOrm(m, idx, &c)
-		if st.class == "inconclusive" {
-			return
-		}
-		m.Count("orm_fields_compared", int64(st.fields))
-		m.Case(vk.Digest(vk.JSON(c)), st.fields > 0 || st.class == "row:ErrNotFound")
-	}
-	m.Sample(map[string]any{"statement_log": "disabled", "cases": idx})
+	m.Sample(map[string]any{"configurations": cfg, "cases": idx})
 }
